@@ -1304,6 +1304,36 @@ fn cmd_singletons(args: &[String]) {
             }
         }
     }
+    // a LONG text (beyond the 16384 floor of the length budget) that grows by a few glyphs at its start: three characters
+    // the font lacks and decomposes, then 17000 plain letters - every one of them keeps its cmap glyph and hmtx advance
+    // (the budget of a shaping call is 64 x the text length, so such a text is far from it)
+    if arg_u64(args, "--seed", 1) % 32452843 == 1 || n <= 8 {
+        let mut spec = FontSpec::basic(5);
+        spec.cmap = vec![(0x61, 1), (0x65, 2), (0x301, 3)];
+        spec.hadv = vec![500, 611, 580, 0, 500];
+        let bytes = build(&spec);
+        let face = Face::from_slice(&bytes, 0).expect("long-text font");
+        for dir in [Direction::LeftToRight, Direction::TopToBottom] {
+            let mut text: Vec<(u32, u32)> = vec![(0xE9, 0), (0xE9, 1), (0xE9, 2)];
+            text.extend((0..17000u32).map(|i| (0x61, 3 + i)));
+            let req = Req { text, dir: Some(dir), script: Some("Latn".to_string()), flags: 3, level: 1, ..Default::default() };
+            let r2 = req.clone();
+            let f2 = &face;
+            shapes += 1;
+            nontrivial += 1;
+            match catch(std::panic::AssertUnwindSafe(move || shape_req(f2, &r2))) {
+                Ok(out) => {
+                    let bad = out.iter().filter(|g| g.cluster >= 3).find(|g| g.gid != 1 || (dir == Direction::LeftToRight && (g.xa != 611 || g.ya != 0)) || (dir == Direction::TopToBottom && g.xa != 0));
+                    let count_ok = out.iter().filter(|g| g.cluster >= 3).count() == 17000;
+                    if bad.is_some() || !count_ok {
+                        viol += 1;
+                        println!("viol fonthex={} index=0 var=- req={} dir={} what=decomposing-run-metrics:long-text-plain-letters-lost-their-glyph(count_ok={}) nf=- out={}", hex(&bytes), "text=E9:0,E9:1,E9:2,61x17000~script=Latn~flags=3~level=1", dir_name(Some(dir)), count_ok, bad.map(|g| format!("{}@{}+{},{}", g.gid, g.cluster, g.xa, g.ya)).unwrap_or_default());
+                    }
+                }
+                Err(_) => {}
+            }
+        }
+    }
     println!("singletons-summary fonts={} shapes={} glyphs={} vertical={} nontrivial={} viol={}", n, shapes, glyphs, vertical, nontrivial, viol);
 }
 
